@@ -51,6 +51,8 @@ LEVEL_NOTE = ("Trusted base: LLVM 14's decoder tables (llvm-mc --disassemble) wi
               "validity and length are compared); MSP430 / MeP / SH4 are outside the property.")
 TECHNIQUE = "bounded-exhaustive enumeration of opcode-map cubes, differential length/validity comparison against llvm-mc"
 ASSUMPTIONS = ["an instruction is 'decoded by miasm' when mn.dis returns without raising; its length is instr.l",
+               "decode candidates are tried in definition order (miasm iterates a set of classes, i.e. in an address-dependent "
+               "order, and returns the first alias): fixes which alias mnemonic names an encoding, not its length",
                "llvm-mc 14 (--disassemble, atomic blocks) is the reference decoder; an instruction it prints without an "
                "'invalid instruction encoding' diagnostic is valid, 'potentially undefined' (SoftFail) included",
                "big-endian ARM / Thumb / AArch64: miasm reads big-endian instruction units (BE32), LLVM's armv7eb / "
@@ -71,8 +73,8 @@ LLVM_TARGETS = {
     "x86_64": (["-triple=x86_64-unknown-unknown"], False, ["b8115e47a5", "bb22a558c3", "b933c769d1"]),
     "arml": (["-triple=armv7-unknown-unknown", _ARM_ATTR], False, ["5e1705e3", "a52306e3", "c73907e3"]),
     "armb": (["-triple=armv7eb-unknown-unknown", _ARM_ATTR], True, ["5e1705e3", "a52306e3", "c73907e3"]),
-    "armtl": (["-triple=thumbv7-unknown-unknown", _ARM_ATTR], False, ["5e25", "a526", "c727"]),
-    "armtb": (["-triple=thumbv7eb-unknown-unknown", _ARM_ATTR], True, ["5e25", "a526", "c727"]),
+    "armtl": (["-triple=thumbv7-unknown-unknown", _ARM_ATTR], False, ["45f64765", "4af22356", "4cf23977"]),
+    "armtb": (["-triple=thumbv7eb-unknown-unknown", _ARM_ATTR], True, ["45f64765", "4af22356", "4cf23977"]),
     "aarch64l": (["-triple=aarch64-unknown-unknown", _A64_ATTR], False, ["c5eb8bd2", "a6b494d2", "27e798d2"]),
     "aarch64b": (["-triple=aarch64_be-unknown-unknown", _A64_ATTR], True, ["c5eb8bd2", "a6b494d2", "27e798d2"]),
     "mips32l": (["-triple=mipsel-unknown-unknown", "-mcpu=mips32r2"], False, ["5e170534", "a5230634", "c7390734"]),
@@ -87,24 +89,27 @@ LLVM_TARGETS = {
 FLUSH = {"armtl": bytes.fromhex("c046") * 4, "armtb": bytes.fromhex("c046") * 4}
 
 _NAT = [t for t in g.NATIVE if t in TARGETS]
+_SWP = [t for t in g.SWAPPED if t in TARGETS]
 BOUNDS = {
+    # quick (sized for a machine whose load is 5-10x its cores): curated vectors of every target; cubes for one byte
+    # order per architecture with the completely enumerated 16-bit axis restricted to the multiples of 8 (the 3 low bits
+    # of that half-word - an operand field - stay 0) and one operand half-word; x86: every prefix x both maps x all 256
+    # opcodes x 2 ModRM bytes x 1 tail.
     "quick": {
         "curated": TARGETS, "bitflip": [], "bytesub": [],
-        "cube": dict(
-            g.cube_dims({"fixed32": {"lo": 2, "hi": 0, "stride": 4}, "thumb": {"ext": 2, "stride": 4},
-                         "x86": {"prefix": 7, "maps": 2, "second": 4, "tail": 1}}, _NAT),
-            **g.cube_dims({"fixed32": {"lo": 1, "hi": 0, "stride": 16}, "thumb": {"ext": 1, "stride": 16}},
-                          [t for t in g.SWAPPED if t in TARGETS])),
-        "shard": 4096, "bundles": 64,
+        "cube": g.cube_dims({"fixed32": {"lo": 1, "hi": 0, "stride": 8}, "thumb": {"ext": 1, "stride": 8},
+                             "x86": {"prefix": 7, "maps": 2, "second": 2, "tail": 1}}, _NAT),
+        "shard": 2048, "bundles": 48,
     },
+    # thorough: complete 16-bit opcode axis x 4 operand half-words (the other byte order: x 1), x86 with the complete
+    # ModRM menu (16) x 4 tails.
     "thorough": {
         "curated": TARGETS, "bitflip": [], "bytesub": [],
         "cube": dict(
-            g.cube_dims({"fixed32": {"lo": 8, "hi": 0}, "thumb": {"ext": 8},
-                         "x86": {"prefix": 7, "maps": 2, "second": 16, "tail": 8}}, _NAT),
-            **g.cube_dims({"fixed32": {"lo": 2, "hi": 0}, "thumb": {"ext": 2}},
-                          [t for t in g.SWAPPED if t in TARGETS])),
-        "shard": 8192, "bundles": 192,
+            g.cube_dims({"fixed32": {"lo": 4, "hi": 0}, "thumb": {"ext": 4},
+                         "x86": {"prefix": 7, "maps": 2, "second": 16, "tail": 4}}, _NAT),
+            **g.cube_dims({"fixed32": {"lo": 1, "hi": 0}, "thumb": {"ext": 1}}, _SWP)),
+        "shard": 8192, "bundles": 256,
     },
 }
 
@@ -176,7 +181,10 @@ def ref_run(target, blocks):
         if not any(sb in b for b in blocks):
             break
     else:
-        raise RuntimeError("every sentinel candidate of %s occurs in a case" % target)
+        if len(blocks) == 1:
+            raise RuntimeError("every sentinel candidate of %s occurs in the case %s" % (target, blocks[0].hex()))
+        h = len(blocks) // 2
+        return ref_run(target, blocks[:h]) + ref_run(target, blocks[h:])
     stext = _sentinel_text(target, sent)
     nflush = len(FLUSH.get(target, b"")) // 2
     sline = (_block(FLUSH[target]).rstrip("\n") + " " if nflush else "") + _block(sb)
@@ -231,7 +239,11 @@ X86_PREFIX_PSEUDO = frozenset(["lock", "rep", "repe", "repz", "repne", "repnz", 
 
 
 def _mnemo(line):
-    return line.split("#")[0].strip()
+    """'lock' for a line that consists of prefix names only ("lock", "lock<TAB>lock" = 66 F0 ...), else the text"""
+    toks = line.split("#")[0].split()
+    if toks and all(t in X86_PREFIX_PSEUDO for t in toks):
+        return toks[0]
+    return " ".join(toks)
 
 
 def agrees(r):
@@ -250,17 +262,21 @@ def opclass(target, b):
     t = g.Target(target)
     if t.kind == "x86":
         i = 0
-        pre = ""
+        mand = ""
+        nrex = 0
         while i < len(b) - 1 and (b[i] in _X86_LEGACY or (t.mode == 64 and 0x40 <= b[i] <= 0x4F)):
-            if b[i] in (0x66, 0x67) and ("%02x" % b[i]) not in pre:
-                pre += "%02x" % b[i]           # the two size-changing prefixes are part of the class
+            if b[i] in (0x66, 0xF2, 0xF3):
+                mand = "66:" if b[i] == 0x66 else "rep:"     # the last of these selects the instruction in the 0F maps
+            if 0x40 <= b[i] <= 0x4F:
+                nrex += 1
             i += 1
-        pre = (pre + ":") if pre else ""
+        if nrex > 1:
+            return "rex+rex"                   # several REX prefixes (LLVM 14 rejects them unless identical)
         if b[i] == 0x0F and i + 1 < len(b):
             if b[i + 1] in (0x38, 0x3A) and i + 2 < len(b):
-                return pre + "0f%02x%02x" % (b[i + 1], b[i + 2])
-            return pre + "0f%02x" % b[i + 1]
-        return pre + "%02x" % b[i]
+                return mand + "0f%02x%02x" % (b[i + 1], b[i + 2])
+            return mand + "0f%02x" % b[i + 1]
+        return "%02x" % b[i]
     if t.kind == "thumb":
         h = int.from_bytes(b[:2], "little" if t.order == "l" else "big")
         if len(b) == 2:
@@ -283,6 +299,32 @@ def opclass(target, b):
     if t.testdir == "ppc32":
         return "%02d" % (w >> 26)                          # primary opcode
     raise ValueError(target)
+
+
+def deterministic(target):
+    """cls_mn.guess_mnemo returns its candidates in the iteration order of a *set of classes* (hash = address), and dis()
+    returns the first alias among several decodable candidates (aarch64 `SUBS WZR, WZR, ..` is CMP or NEGS): the mnemonic
+    of such an encoding changes from process to process.  Signatures carry the mnemonic, so the candidates are put in
+    definition order (mn.all_mn) - one of the orders miasm itself may use; lengths do not depend on it."""
+    t, mn = g.env(target)
+    if mn.__dict__.get("_c17_sorted"):
+        return
+    order = dict((c, i) for i, c in enumerate(mn.all_mn))
+    orig = mn.guess_mnemo.__func__
+
+    def guess_mnemo(cls, bs, attrib, pre_dis_info, offset):
+        return sorted(orig(cls, bs, attrib, pre_dis_info, offset), key=lambda c: order.get(c, len(order)))
+    mn.guess_mnemo = classmethod(guess_mnemo)
+    mn._c17_sorted = True
+
+
+def base_mnemonic(target, name):
+    """miasm mnemonic without the ARM condition code (suffix, or infix of LDC<c>L / STC<c>L)"""
+    b = g.base_mnemonic(target, name)
+    if b == name and g.Target(target).testdir == "arm" and len(name) == 6 and name[:3] in ("LDC", "STC") \
+            and name[5] == "L" and name[3:5] in g._COND:
+        return name[:3] + "L"
+    return b
 
 
 def _txt(i):
@@ -351,7 +393,7 @@ def judge_cases(target, cases):
 
 def make_violation(target, raw, L, instr, kind, rl, reftxt):
     b = bytes(raw[:L])
-    mnemo = g.base_mnemonic(target, instr.name)
+    mnemo = base_mnemonic(target, instr.name)
     sig = "%s|%s|%s|%s" % (target, kind, mnemo, opclass(target, b))
     ref = "; ".join(x.split("#")[0].split("@")[0].split("//")[0].strip().replace("\t", " ") for x in reftxt) or "-"
     if kind == "ref-invalid":
@@ -374,6 +416,7 @@ def _bundle(bundle):
     pending = {}           # target -> [(result index, raw, L, instr)]
     for shard in bundle:
         name = shard[0]
+        deterministic(name)
         stats = {}
         counters = collections.Counter()
         idx = len(out)
@@ -421,6 +464,7 @@ def run(ctx):
     llvm_mc()
     shards = plan(tier)
     for name in TARGETS:                 # import / warm every architecture and the sentinels before the pool forks
+        deterministic(name)
         g.decode(name, g.raw_of(name, "curated", g.curated(name)[0]))
         ref_run(name, [bytes.fromhex(LLVM_TARGETS[name][2][1])])
     g.quiet()
@@ -439,7 +483,7 @@ def replay(case):
     raw = case["raw"]
     if isinstance(raw, str):
         raw = bytes.fromhex(raw)
-    g.env(target)
+    deterministic(target)
     g.quiet()
     instr = g.decode(target, raw)
     if instr is None:
